@@ -117,7 +117,7 @@ func init() {
 	}
 }
 
-const c15QuickMats = 10
+const c15QuickMats = 32
 
 type c15Case struct {
 	StopSet int    `json:"stopset"`
@@ -146,16 +146,14 @@ func c15Maps(exact bool) []c15Map {
 
 func init() {
 	nsets := func(tier string) int {
-		if tier == "thorough" {
-			return len(c15StopSets())
-		}
-		return c15QuickSets
+		_ = tier // both tiers enumerate every stop list; the tiers differ in matrices and lattice
+		return len(c15StopSets())
 	}
 	mc.Register(&mc.Check{
 		ID:    "C15",
 		Level: "exploration",
 		Rule: "engine P over (stops x spread x shape x matrix x map x pixel): 11 stop lists (2,2,3,4,3,2,8,4,3,2,58 stops; first>0, last<1, transparent, equal neighbours, stops 2^-10 apart) x 4 spreads x 2 shapes; exact family: 12 dyadic matrices (one with entries 2^64, one with 2^-32 and pixels up to 2^40) x 3 power-of-two viewBox/rectangle maps x pixel sweeps landing exactly on integers, stop offsets, midpoints and +-1000 (compared at the discontinuities, exact equality at stops); " +
-			"generic family: 10 (thorough 120: + 11 rotations x 5 scales x 2 translations, sheared) matrices x 12 maps x a 33x33 (thorough 129x129) pixel lattice; thorough adds 57 generated stop lists, one per stop count 2..58 (33x33 lattice) incl. negative coordinates (pixels within 1e-9 of a discontinuity of the active spread skipped and counted). The paint is obtained as a user gets it: register writes + gradient colour + full-rectangle path on a real Renderer, src image taken from Rasterizer.Draw; At(x,y) and the GradientConfig accessors are compared with the reference; a subset is rendered with raster/vec into an RGBA64 image. " +
+			"generic family: 32 (thorough 120: 10 hand-made + 11 rotations x 5 scales x 2 translations, sheared) matrices x 12 maps x a 33x33 (thorough 129x129 for the 11 hand-made stop lists) pixel lattice; both tiers also run 57 generated stop lists, one per stop count 2..58 (33x33 lattice) incl. negative coordinates (pixels within 1e-9 of a discontinuity of the active spread skipped and counted). The paint is obtained as a user gets it: register writes + gradient colour + full-rectangle path on a real Renderer, src image taken from Rasterizer.Draw; At(x,y) and the GradientConfig accessors are compared with the reference; a subset is rendered with raster/vec into an RGBA64 image. " +
 			"distinct = hash of (spread-mapped region, exactness, shape); non-trivial = pixel whose raw offset lies outside [0,1] or exactly on a stop",
 		Assumptions: []string{"|At - v| <= 1 of 65535 per channel (truncation vs rounding is not the property's subject)", "accessor matrix compared within 2^-40 (exact family) / 2^-21 (generic family: the renderer's scale is a float32) relative to the magnitude of the terms"},
 		Units:       func(tier string) int { return nsets(tier) * 4 * 2 * 2 },
